@@ -25,7 +25,8 @@ import (
 
 var docFields = map[string]defMap{
 	"t1": {"a": {Kind: "attr", K: "string"}, "n": {Kind: "attr", K: "int", Null: true},
-		"o": {Kind: "rel", To1: true, TT: "t2"}, "m": {Kind: "rel", To1: false, TT: "t2"}},
+		"o": {Kind: "rel", To1: true, TT: "t2"}, "m": {Kind: "rel", To1: false, TT: "t2"},
+		"o2": {Kind: "rel", To1: true, TT: "t2"}, "m2": {Kind: "rel", To1: false, TT: "t2"}},
 	"t2": {"b": {Kind: "attr", K: "string"}, "p": {Kind: "rel", To1: true, TT: "t1"}},
 }
 
@@ -106,6 +107,7 @@ type dVariant struct {
 	Prefix string `json:"prefix"` // path prefix
 	Meta   int    `json:"meta"`   // meta class
 	IDMap  int    `json:"idmap"`  // id concretisation (0 = tokens as they are)
+	NoFrom bool   `json:"nofrom"` // soft types declared by hand: relationships without FromType
 	Reps   int    `json:"reps"`   // repeated marshals
 }
 
@@ -175,14 +177,31 @@ func newDocWorld(v dVariant, seed int64) *docWorld {
 			must(err)
 			must(w.schema.AddType(typ))
 		} else {
-			must(w.schema.AddType(*softType(name, docFields[name], w.km)))
+			must(w.schema.AddType(*w.soft(name)))
 		}
 	}
 	return w
 }
 
+// soft: the soft type; with NoFrom its relationships lack FromType, as a type declared by hand may
+func (w *docWorld) soft(name string) *jsonapi.Type {
+	t := softType(name, docFields[name], w.km)
+	if w.v.NoFrom {
+		for k, r := range t.Rels {
+			r.FromType = ""
+			t.Rels[k] = r
+		}
+	}
+	return t
+}
+
 func (w *docWorld) res(r dRes) jsonapi.Resource {
-	res := newRes(w.v.Impl, r.Type, docFields[r.Type], w.km)
+	var res jsonapi.Resource
+	if w.v.Impl == "soft" {
+		res = &jsonapi.SoftResource{Type: w.soft(r.Type)}
+	} else {
+		res = newRes(w.v.Impl, r.Type, docFields[r.Type], w.km)
+	}
 	res.Set("id", w.v.id(r.ID))
 	for f, val := range r.Vals {
 		d := docFields[r.Type][f]
@@ -245,7 +264,7 @@ func (w *docWorld) build(d dDoc) (*jsonapi.Document, *jsonapi.URL, []jsonapi.Res
 		switch d.Coll {
 		case "soft":
 			sc := &jsonapi.SoftCollection{}
-			sc.SetType(softType("t1", docFields["t1"], w.km))
+			sc.SetType(w.soft("t1"))
 			for _, r := range prim {
 				sc.Add(r)
 			}
@@ -742,6 +761,8 @@ func randDocRes(rng *rand.Rand, typ, id string) dRes {
 		}
 		r.Vals["o"] = jVal{IDs: pick([][]string{{}, {"u"}, {"v"}})}
 		r.Vals["m"] = jVal{IDs: pick([][]string{{}, {"u"}, {"v", "u"}, {"w", "u", "v"}, {"u", "u"}})}
+		r.Vals["o2"] = jVal{IDs: pick([][]string{{}, {"w"}, {"u"}})}
+		r.Vals["m2"] = jVal{IDs: pick([][]string{{}, {"w"}, {"u", "w"}})}
 	} else {
 		r.Vals["b"] = jVal{R: rng.Intn(4), IDs: []string{}}
 		r.Vals["p"] = jVal{IDs: pick([][]string{{}, {"x"}, {"y"}})}
@@ -876,8 +897,8 @@ func docMain(args []string) {
 	prefixes := []string{"", "/", "https://x.org", "https://x.org/", "/api/v1"}
 	var sysDocs []dDoc
 	if *systematic {
-		all := []string{"a", "m", "n", "o"}
-		for mask := 0; mask < 16; mask++ {
+		all := []string{"a", "m", "n", "o", "m2", "o2"}
+		for mask := 0; mask < 64; mask++ {
 			var f []string
 			for i, name := range all {
 				if mask&(1<<i) != 0 {
@@ -885,7 +906,7 @@ func docMain(args []string) {
 				}
 			}
 			for extra := 0; extra < 6; extra++ {
-				for dmask := 0; dmask < 5; dmask++ {
+				for dmask := 0; dmask < 7; dmask++ {
 					for pos := 0; pos < 3; pos++ {
 						d := dDoc{Fields: map[string][]string{"t2": {"b", "p"}}, RelData: map[string][]string{"t2": {"p"}}, Coll: "none"}
 						sel := append([]string{}, f...)
@@ -922,6 +943,10 @@ func docMain(args []string) {
 							d.RelData["t1"] = []string{"m", "o"}
 						case 4:
 							d.RelData["t1"] = []string{"zz", "o"}
+						case 5:
+							d.RelData["t1"] = []string{"m2"} // data for one of two to-many relationships only
+						case 6:
+							d.RelData["t1"] = []string{"o2", "m"}
 						}
 						r := randDocRes(rng, "t1", "x")
 						switch pos {
@@ -951,7 +976,8 @@ func docMain(args []string) {
 			d = randDoc(rng)
 		}
 		v := dVariant{Impl: []string{"soft", "wrap"}[rng.Intn(2)], Shift: rng.Intn(len(nonBool)), Table: rng.Intn(3),
-			Prefix: prefixes[rng.Intn(len(prefixes))], Meta: rng.Intn(len(metaClasses)), IDMap: rng.Intn(len(idMaps)), Reps: *reps}
+			Prefix: prefixes[rng.Intn(len(prefixes))], Meta: rng.Intn(len(metaClasses)), IDMap: rng.Intn(len(idMaps)), Reps: *reps,
+			NoFrom: rng.Intn(3) == 0}
 		if d.Coll == "wrapcol" {
 			v.Impl = "wrap"
 		}
